@@ -802,6 +802,309 @@ theorem stmtEffect_ruleset (O : Oracle) (M : List Cps) (st : SheetSt) (t : Tok) 
   unfold stmtEffect
   split <;> first | rfl | simp_all
 
+/-! ## T4.4: the rule list only grows -/
+
+/-- forget the URI of namespace rules (the only thing a later statement can change in an earlier rule:
+`_replaceNamespaceURI` for a repeated prefix) -/
+def eraseUri : Rule → Rule
+  | .ns p _ toks => .ns p [] toks
+  | r => r
+
+/-- `b` is `a` with rules appended, up to namespace URIs -/
+def Extends (a b : List Rule) : Prop := ∃ more, b.map eraseUri = a.map eraseUri ++ more
+
+theorem Extends.refl (a : List Rule) : Extends a a := ⟨[], by simp⟩
+
+theorem Extends.trans {a b c : List Rule} (h1 : Extends a b) (h2 : Extends b c) : Extends a c := by
+  obtain ⟨m1, h1⟩ := h1
+  obtain ⟨m2, h2⟩ := h2
+  exact ⟨m1 ++ m2, by rw [h2, h1]; simp⟩
+
+theorem Extends.snoc (a : List Rule) (r : Rule) : Extends a (a ++ [r]) := ⟨[eraseUri r], by simp⟩
+
+theorem sheetInsert_extends (st : SheetSt) (r : Rule) : Extends st.rules (sheetInsert st r).rules := by
+  unfold sheetInsert
+  split
+  · split
+    · exact Extends.refl _
+    · next h => simp at h; simp [h]; exact ⟨[eraseUri r], by simp⟩
+  · split
+    · exact Extends.refl _
+    · exact Extends.snoc _ _
+  · split
+    · exact Extends.refl _
+    · split
+      · split
+        · exact Extends.refl _
+        · exact Extends.snoc _ _
+      · exact Extends.refl _
+  · split
+    · exact Extends.refl _
+    · exact Extends.snoc _ _
+  · exact Extends.snoc _ _
+
+theorem sheetInsert_expected (st : SheetSt) (r : Rule) : (sheetInsert st r).expected = st.expected := by
+  unfold sheetInsert
+  repeat' split
+  all_goals rfl
+
+theorem replaceNsUri_extends (rules : List Rule) (p u : Cps) : Extends rules (replaceNsUri rules p u) := by
+  refine ⟨[], ?_⟩
+  simp only [List.append_nil, replaceNsUri, List.map_map]
+  apply List.map_congr_left
+  intro r _
+  cases r with
+  | ns p' u' toks => by_cases h : p' = p <;> simp [h, eraseUri]
+  | _ => simp [eraseUri]
+
+theorem stmtEffect_extends (O : Oracle) (M : List Cps) (st : SheetSt) (t : Tok) (stmt : List Tok) :
+    Extends st.rules (stmtEffect O M st t stmt).rules := by
+  unfold stmtEffect
+  split
+  · split
+    · exact Extends.refl _
+    · split
+      · exact sheetInsert_extends _ _
+      · exact Extends.refl _
+  · split
+    · exact Extends.refl _
+    · split
+      · exact sheetInsert_extends _ _
+      · exact Extends.refl _
+  · split
+    · exact Extends.refl _
+    · split
+      · dsimp only
+        split
+        · exact sheetInsert_extends _ _
+        · exact replaceNsUri_extends _ _ _
+      · exact Extends.refl _
+  · split
+    · exact Extends.refl _
+    · split
+      · exact sheetInsert_extends _ _
+      · exact Extends.refl _
+  · split
+    · exact sheetInsert_extends _ _
+    · exact Extends.refl _
+  · split
+    · exact sheetInsert_extends _ _
+    · exact Extends.refl _
+  · split
+    · exact sheetInsert_extends _ _
+    · exact Extends.refl _
+  · dsimp only
+    split
+    · split
+      · exact sheetInsert_extends _ _
+      · exact Extends.refl _
+    · split
+      · exact sheetInsert_extends _ _
+      · exact Extends.refl _
+  · split
+    · exact sheetInsert_extends _ _
+    · exact Extends.refl _
+
+theorem sheetStep_extends (O : Oracle) (M : List Cps) (st : SheetSt) (t : Tok) (rest : List Tok) :
+    Extends st.rules (sheetStep O M st t rest).1.rules := by
+  unfold sheetStep
+  split
+  · exact Extends.refl _
+  · exact Extends.refl _
+  · exact Extends.refl _
+  · exact sheetInsert_extends _ _
+  · exact Extends.refl _
+  · exact stmtEffect_extends _ _ _ _ _
+
+/-- whatever follows, the rules already in the sheet stay, in order, unchanged up to namespace URIs -/
+theorem sheetLoop_extends (O : Oracle) (M : List Cps) (st : SheetSt) (ts : List Tok) :
+    Extends st.rules (sheetLoop O M st ts).rules := by
+  unfold sheetLoop
+  exact parseLoop_inv (sheetStep O M) (fun s => Extends st.rules s.rules)
+    (fun s t ts h => Extends.trans h (sheetStep_extends O M s t ts)) ts st (Extends.refl _)
+
+/-! ## T4.4: a style rule cut off inside its block -/
+
+theorem nest_cons_start (t : Tok) (g : List Tok) (s : List K) (h : nest [] (t :: g) = some s) :
+    nest (startStack t) g = some s := by
+  unfold nest at h
+  split at h
+  · simp at h
+  · next s1 hs1 =>
+    have : startStack t = s1 := by
+      unfold push at hs1
+      unfold startStack Tok.startOpen
+      unfold Tok.br at hs1
+      by_cases h1 : t.val = vLBrace
+      · simp [h1] at hs1 ⊢; exact hs1
+      by_cases h2 : t.val = vRBrace
+      · simp [h1, h2] at hs1
+      by_cases h3 : t.val = vLBrack
+      · simp [h1, h2, h3] at hs1 ⊢; exact hs1
+      by_cases h4 : t.val = vRBrack
+      · simp [h1, h2, h3, h4] at hs1
+      by_cases h5 : t.val = vLParen ∨ t.typ = .function
+      · simp [h1, h2, h3, h4, h5] at hs1 ⊢; exact hs1
+      by_cases h6 : t.val = vRParen
+      · have h5' := not_or.mp h5
+        simp [h1, h2, h3, h4, h5'.2, h6] at hs1
+      · simp [h1, h2, h3, h4, h5, h6] at hs1 ⊢; exact hs1
+    rw [this]; exact h
+
+theorem quiet_cons_start (m : Mode) (t : Tok) (g : List Tok) (h : Quiet m [] (t :: g) = true) :
+    Quiet m (startStack t) g = true := by
+  have hn : ∃ s, nest [] (t :: g) = some s := by
+    have := nest_of_calm m zeroCnt [] (t :: g) (calm_of_quiet m [] (t :: g) h)
+    exact this
+  unfold Quiet at h
+  split at h
+  · simp at h
+  · next s1 hs1 =>
+    obtain ⟨s, hs⟩ := hn
+    have h1 : nest [] [t] = some s1 := by simp [nest, hs1]
+    have h2 := nest_cons_start t [] s1 h1
+    simp [nest] at h2
+    rw [h2]
+    simp only [Bool.and_eq_true] at h
+    exact h.2
+
+theorem rbrace_br (t : Tok) (h : t.val = vRBrace) : t.br = .cl .brace := by
+  simp [Tok.br, h]
+
+theorem lbrace_br (t : Tok) (h : t.val = vLBrace) : t.br = .op .brace := by
+  simp [Tok.br, h]
+
+theorem noEof_append (a b : List Tok) : noEof (a ++ b) = (noEof a && noEof b) := by
+  simp [noEof]
+
+/-- the block of a style / media rule: balanced content `d`, then the closing `}` -/
+theorem upto_blockend_closed (m : Mode) (hm : m = .blockend ∨ m = .mediaend) (d : List Tok) (rb : Tok)
+    (rest : List Tok) (hd : nest [] d = some []) (hde : noEof d = true) (hr : rb.val = vRBrace) :
+    upto m none (d ++ rb :: rest) = (d ++ [rb], rest) := by
+  have hi : m.initStack = some [.brace] := by rcases hm with h | h <;> subst h <;> rfl
+  refine upto_none_end m [.brace] [.brace] d rb rest hi ?_ ?_ ?_ ?_
+  · exact quiet_lift m [] [] .brace [] d hd hde
+  · exact nest_lift [] [] [.brace] d hd
+  · simp [push, rbrace_br rb hr]
+  · rcases hm with h | h <;> subst h <;> simp [endTok, hr, Mode.ends, isInfixOf]
+
+/-- the block cut off by the end of input: everything up to and including EOF is the block -/
+theorem upto_blockend_open (m : Mode) (hm : m = .blockend ∨ m = .mediaend) (x : List Tok) (eof : Tok)
+    (stk : List K) (hx : nest [] x = some stk) (hxe : noEof x = true) (he : eof.typ = .eof) :
+    upto m none (x ++ [eof]) = (x ++ [eof], []) := by
+  have hi : m.initStack = some [.brace] := by rcases hm with h | h <;> subst h <;> rfl
+  have hn : nest [.brace] x = some (stk ++ [.brace]) := nest_lift [] stk [.brace] x hx
+  have hq : Quiet m [.brace] x = true := quiet_lift m [] stk .brace [] x hx hxe
+  exact upto_none_eof m [.brace] (stk ++ [.brace]) x eof [] hi hq hn he
+
+/-- the selector part of a style rule, as the theorems need it: not empty, does not start with `@`,
+balanced, no braces, no EOF -/
+structure SelShape (sel : List Tok) : Prop where
+  ne : sel ≠ []
+  noAt : ∀ t, sel.head? = some t → t.val.head? ≠ some 0x40
+  bal : nest [] sel = some []
+  nb : noBrace sel = true
+  ne' : noEof sel = true
+
+theorem styleRule_eval (O : Oracle) (ns : List (Cps × Cps)) (sel body : List Tok) (lb last : Tok)
+    (rest : List Tok) (hs : SelShape sel) (hl : lb.val = vLBrace)
+    (h2 : upto .blockend none rest = (body ++ [last], []))
+    (hlast : last.val = vRBrace ∨ last.typ = .eof) :
+    styleRule O ns (sel ++ lb :: rest) =
+      if O.selOk ns sel then
+        some (sel, parseDecls O (if last.typ = .eof then body ++ [last] else body))
+      else none := by
+  have h1 := upto_blockstart sel lb rest hs.bal hs.nb hs.ne' hl
+  obtain ⟨t, sel', rfl⟩ := List.exists_cons_of_ne_nil hs.ne
+  have hat := hs.noAt t rfl
+  unfold styleRule
+  simp only [h1, h2]
+  have e1 : (t :: sel' ++ [lb]).head? = some t := by simp
+  have e2 : (t :: sel' ++ [lb]).getLast? = some lb := by
+    rw [show t :: sel' ++ [lb] = (t :: sel') ++ [lb] from rfl, List.getLast?_concat]
+  have e3 : (t :: sel' ++ [lb]).dropLast = t :: sel' := by
+    rw [show t :: sel' ++ [lb] = (t :: sel') ++ [lb] from rfl, List.dropLast_concat]
+  have e4 : (body ++ [last]).getLast? = some last := by simp
+  have e5 : (body ++ [last]).dropLast = body := List.dropLast_concat
+  simp only [e1, e2, e3, e4, e5, hat, hl]
+  rcases hlast with h | h
+  · by_cases he : last.typ = .eof <;> by_cases ho : O.selOk ns (t :: sel') = true <;> simp [h, he, ho]
+  · by_cases ho : O.selOk ns (t :: sel') = true <;> simp [h, ho]
+
+/-- a complete style rule -/
+theorem styleRule_complete (O : Oracle) (ns : List (Cps × Cps)) (sel d : List Tok) (lb rb : Tok)
+    (hs : SelShape sel) (hl : lb.val = vLBrace) (hd : nest [] d = some []) (hde : noEof d = true)
+    (hr : rb.val = vRBrace) (hrt : rb.typ ≠ .eof) :
+    styleRule O ns (sel ++ lb :: d ++ [rb]) =
+      if O.selOk ns sel then some (sel, parseDecls O d) else none := by
+  have h2 := upto_blockend_closed .blockend (Or.inl rfl) d rb [] hd hde hr
+  have := styleRule_eval O ns sel d lb rb (d ++ [rb]) hs hl h2 (Or.inl hr)
+  simp only [hrt, ↓reduceIte] at this
+  simpa using this
+
+/-- a style rule cut off inside its block by the end of input -/
+theorem styleRule_truncated (O : Oracle) (ns : List (Cps × Cps)) (sel x : List Tok) (lb eof : Tok)
+    (stk : List K) (hs : SelShape sel) (hl : lb.val = vLBrace)
+    (hx : nest [] x = some stk) (hxe : noEof x = true) (he : eof.typ = .eof) :
+    styleRule O ns (sel ++ lb :: x ++ [eof]) =
+      if O.selOk ns sel then some (sel, parseDecls O (x ++ [eof])) else none := by
+  have h2 := upto_blockend_open .blockend (Or.inl rfl) x eof stk hx hxe he
+  have := styleRule_eval O ns sel x lb eof (x ++ [eof]) hs hl h2 (Or.inr he)
+  simp only [he, ↓reduceIte] at this
+  simpa using this
+
+/-- the statement the sheet dispatcher collects when a style rule is cut off inside its block: all of it,
+EOF included -/
+theorem upto_default_open_rule (t : Tok) (sel' x : List Tok) (lb eof : Tok) (stk : List K)
+    (hq : Quiet .default [] (t :: sel') = true) (hbal : nest [] (t :: sel') = some [])
+    (hl : lb.val = vLBrace) (hlt : lb.typ ≠ .eof)
+    (hx : nest [] x = some stk) (hxe : noEof x = true) (he : eof.typ = .eof) :
+    upto .default (some t) (sel' ++ lb :: x ++ [eof]) = (t :: sel' ++ lb :: x ++ [eof], []) := by
+  have q1 := quiet_cons_start .default t sel' hq
+  have n1 := nest_cons_start t sel' [] hbal
+  have hp : push [] lb = some [.brace] := by simp [push, lbrace_br lb hl]
+  have q2 : Quiet .default [] (lb :: x) = true := by
+    unfold Quiet
+    simp only [hp, Bool.and_eq_true, bne_iff_ne, ne_eq]
+    refine ⟨⟨hlt, by simp⟩, ?_⟩
+    exact quiet_lift .default [] stk .brace [] x hx hxe
+  have n2 : nest [] (lb :: x) = some (stk ++ [.brace]) := by
+    unfold nest
+    simp only [hp]
+    exact nest_lift [] stk [.brace] x hx
+  have q := quiet_append .default (startStack t) [] sel' (lb :: x) q1 n1 q2
+  have n : nest (startStack t) (sel' ++ lb :: x) = some (stk ++ [.brace]) := by
+    rw [nest_append, n1]; exact n2
+  have := upto_start_eof .default [] (stk ++ [.brace]) t (sel' ++ lb :: x) eof [] rfl
+    (by simpa using q) (by simpa using n) he
+  simpa using this
+
+theorem sheetStep_starter (O : Oracle) (M : List Cps) (st : SheetSt) (t : Tok) (rest : List Tok)
+    (ht : startsRuleset t = true) :
+    sheetStep O M st t rest =
+      (stmtEffect O M st t (upto .default (some t) rest).1, (upto .default (some t) rest).2) := by
+  unfold startsRuleset at ht
+  unfold sheetStep
+  split <;> simp_all
+
+/-- the sheet dispatcher on a style rule that is cut off inside its block by the end of input -/
+theorem sheetLoop_truncated_style (O : Oracle) (M : List Cps) (st : SheetSt) (t : Tok) (sel' x : List Tok)
+    (lb eof : Tok) (stk : List K)
+    (ht : startsRuleset t = true) (hs : SelShape (t :: sel')) (hq : Quiet .default [] (t :: sel') = true)
+    (hl : lb.val = vLBrace) (hlt : lb.typ ≠ .eof)
+    (hx : nest [] x = some stk) (hxe : noEof x = true) (he : eof.typ = .eof) :
+    (sheetLoop O M st (t :: sel' ++ lb :: x ++ [eof])).rules =
+      st.rules ++ (if O.selOk st.nsmap (t :: sel') then
+        [Rule.style st.nsmap (t :: sel') (parseDecls O (x ++ [eof]))] else []) := by
+  have hup := upto_default_open_rule t sel' x lb eof stk hq hs.bal hl hlt hx hxe he
+  have e0 : t :: sel' ++ lb :: x ++ [eof] = t :: (sel' ++ lb :: x ++ [eof]) := by simp
+  rw [e0, sheetLoop_cons, sheetStep_starter O M st t _ ht, hup]
+  simp only [sheetLoop_nil]
+  rw [stmtEffect_ruleset O M st t _ ht, styleRule_truncated O st.nsmap (t :: sel') x lb eof stk hs hl hx hxe he]
+  by_cases ho : O.selOk st.nsmap (t :: sel') = true
+  · simp [ho, sheetInsert, Rule.kind]
+  · simp [ho]
+
 /-! ## example tokens (for the non-vacuity examples of the property file) -/
 namespace Ex
 def ch (c : Nat) (p : Nat := 0) : Tok := ⟨.char, [c], p⟩
